@@ -69,13 +69,25 @@ func genSPDXNode(t *rapid.T, id string) *sbom.Node {
 		if n.Hashes == nil {
 			n.Hashes = map[int32]string{}
 		}
-		n.Hashes[int32(rapid.IntRange(0, 17).Draw(t, "algo"))] = hashValue(t, "hv", tx) // hexadecimal digests (a writer may leave out anything else)
+		algo := int32(rapid.IntRange(0, 17).Draw(t, "algo"))
+		n.Hashes[algo] = hashValue(t, "hv", algo) // well-formed digests (a writer may leave out anything else)
 	}
 	for i := rapid.IntRange(0, 4).Draw(t, "ni"); i > 0; i-- {
 		if n.Identifiers == nil {
 			n.Identifiers = map[int32]string{}
 		}
-		n.Identifiers[int32(rapid.IntRange(1, 4).Draw(t, "idt"))] = tx.Draw(t, "idv")
+		// well-formed identifiers of each kind (SPDX 2.3 Annex F gives a pattern for each locator; a writer may leave out
+		// a string that is no purl / CPE name / gitoid)
+		switch idt := int32(rapid.IntRange(1, 4).Draw(t, "idt")); idt {
+		case 1:
+			n.Identifiers[idt] = genPurl(t, "purl")
+		case 2:
+			n.Identifiers[idt] = genCPE22(t, "cpe22")
+		case 3:
+			n.Identifiers[idt] = genCPE23(t, "cpe23")
+		default:
+			n.Identifiers[idt] = "gitoid:blob:" + rapid.SampledFrom([]string{"sha1:" + strings.Repeat("0a", 20), "sha256:" + strings.Repeat("b1", 32), "sha1:" + strings.Repeat("ff", 20)}).Draw(t, "gitoid")
+		}
 	}
 	for i := rapid.IntRange(0, 3).Draw(t, "ner"); i > 0; i-- {
 		// one reference in six has no locator (SPDX cannot carry it: the projection leaves it out; its neighbours stay)
@@ -86,7 +98,8 @@ func genSPDXNode(t *rapid.T, id string) *sbom.Node {
 		er := &sbom.ExternalReference{Url: erURL, Comment: tx.Draw(t, "ercm"), Authority: tx.Draw(t, "erau"),
 			Type: sbom.ExternalReference_ExternalReferenceType(rapid.IntRange(0, nExtRefTypes-1).Draw(t, "ert"))}
 		if rapid.Bool().Draw(t, "erh") {
-			er.Hashes = map[int32]string{int32(rapid.IntRange(1, 12).Draw(t, "erha")): hashValue(t, "erhv", tx)}
+			erha := int32(rapid.IntRange(1, 12).Draw(t, "erha"))
+			er.Hashes = map[int32]string{erha: hashValue(t, "erhv", erha)}
 		}
 		n.ExternalReferences = append(n.ExternalReferences, er)
 	}
@@ -105,7 +118,7 @@ func genSPDXNode(t *rapid.T, id string) *sbom.Node {
 func genSPDXDoc(t *rapid.T) *sbom.Document {
 	doc := sbom.NewDocument()
 	doc.Metadata.Id = "urn:doc"
-	doc.Metadata.Name = hx.TextPlainNE().Draw(t, "docname") // (the document name is mandatory in SPDX: a writer may refuse a nameless document)
+	doc.Metadata.Name = hx.TextName().Draw(t, "docname") // (the document name is mandatory in SPDX: a writer may refuse a nameless document)
 	ids := rapid.SliceOfNDistinct(hx.SPDXID(), 0, 8, rapid.ID[string]).Draw(t, "ids")
 	for _, id := range ids {
 		doc.NodeList.Nodes = append(doc.NodeList.Nodes, genSPDXNode(t, id))
@@ -412,7 +425,7 @@ func TestC01Sweep(t *testing.T) {
 			hx.Eval()
 			doc := sbom.NewDocument()
 			doc.Metadata.Id, doc.Metadata.Name = "urn:doc", "sweep"
-			n := &sbom.Node{Id: "a", Name: "a", Hashes: map[int32]string{a: "00ff00ff00ff00ff00ff00ff00ff00ff00ff00ff"}}
+			n := &sbom.Node{Id: "a", Name: "a", Hashes: map[int32]string{a: strings.Repeat("0f", digestHexLen[a]/2)}}
 			if file {
 				n.Type = sbom.Node_FILE
 			}
@@ -432,7 +445,7 @@ func TestC01Sweep(t *testing.T) {
 		hx.Eval()
 		doc := sbom.NewDocument()
 		doc.Metadata.Id, doc.Metadata.Name = "urn:doc", "sweep"
-		doc.NodeList.Nodes = []*sbom.Node{{Id: "a", Name: "a", PrimaryPurpose: []sbom.Purpose{p, sbom.Purpose_DATA}, Identifiers: map[int32]string{1: "pkg:a/b@1", 2: "cpe:/a", 3: "cpe:2.3:a", 4: "gitoid:blob:sha1:00"}}, {Id: "z"}}
+		doc.NodeList.Nodes = []*sbom.Node{{Id: "a", Name: "a", PrimaryPurpose: []sbom.Purpose{p, sbom.Purpose_DATA}, Identifiers: map[int32]string{1: "pkg:npm/b@1", 2: "cpe:/a:vendor:product:1.0", 3: "cpe:2.3:a:vendor:product:1.0:*:*:*:*:*:*:*", 4: "gitoid:blob:sha1:" + strings.Repeat("0a", 20)}}, {Id: "z"}}
 		d2, out, err := roundTrip(doc, formats.SPDX23JSON, 2)
 		if err == nil {
 			err = compareDocs(doc, d2, spdxProj, true)
